@@ -1,5 +1,6 @@
 import MoreExec.Props.C05
 import MoreExec.Props.C03
+import MoreExec.Props.C06
 #print axioms MoreExec.Retry.C05_attempts_sequential
 #print axioms MoreExec.Retry.C05_never_early
 #print axioms MoreExec.Retry.C05_policy_attempt_number
@@ -9,5 +10,6 @@ import MoreExec.Props.C03
 #print axioms MoreExec.Retry.C05_attempts_bounded
 #print axioms MoreExec.Retry.C05_next_job_spec
 #print axioms MoreExec.Retry.C05_eval_policy_facts
+#print axioms MoreExec.Retry.C06_source_protocol
 #print axioms MoreExec.WakeProto.C03_sleep_invariant
 #print axioms MoreExec.WakeProto.C03_no_overshoot
